@@ -1,15 +1,15 @@
 #!/bin/bash
 # usage: tools/seed_confirm.sh <Cxx> [seed-dir-suffix]  -- confirm a seeded defect in /tmp/seed-<suffix> and store it under seeded/
-P=$1; SFX=${2:-$1}; D=/tmp/seed-$SFX; OUT=/verif/seeded/$SFX
+P=$1; SFX=${2:-$1}; D=/tmp/seed-$SFX; OUT=/verif/seeded/$SFX   # (no git stash: it is shared between worktrees)
 mkdir -p $OUT
 git -C $D diff > $OUT/patch.diff
 cp $D/demo_*.py $OUT/ 2>/dev/null
 DEMO=$(ls $D/demo_*.py | head -1)
 cd $D
 PYTHONPATH=$D /venv/bin/python $DEMO > $OUT/demo_with_change.log 2>&1; RC1=$?
-git stash -q
+git apply -R $OUT/patch.diff
 PYTHONPATH=$D /venv/bin/python $DEMO > $OUT/demo_without_change.log 2>&1; RC0=$?
-git stash pop -q
+git apply $OUT/patch.diff
 echo "demo: with change rc=$RC1 (want 1), without rc=$RC0 (want 0)"
 # existing suite with the change (imports the worktree's package)
 cd $D && PYTHONPATH=$D /venv/bin/python -m pytest -q -p no:cacheprovider --timeout=900 --continue-on-collection-errors 2>&1 | tail -1 | sed 's/\x1b\[[0-9;]*m//g' > $OUT/suite_with_change.log
